@@ -99,3 +99,33 @@ func init() {
 		return Val{K: KUnit}
 	}
 }
+
+// fmt.Sprintf: only the format "%9d" (ORIGIN line index) is given a contract:
+// for 0 <= v < 10^9 the result is v right-aligned in 9 columns.
+const dig9Def = `(define-fun p10 ((e Int)) Int (ite (<= e 0) 1 (ite (= e 1) 10 (ite (= e 2) 100 (ite (= e 3) 1000 (ite (= e 4) 10000 (ite (= e 5) 100000 (ite (= e 6) 1000000 (ite (= e 7) 10000000 100000000)))))))))
+(define-fun dig9 ((v Int) (k Int)) Int (ite (and (< v (p10 (- 8 k))) (< k 8)) 32 (+ 48 (mod (div v (p10 (- 8 k))) 10))))`
+
+func (c *FnCtx) useDig9() {
+	if !c.declared["dig9"] {
+		c.declared["dig9"] = true
+		c.emit(dig9Def)
+	}
+}
+
+func init() {
+	externs["fmt.Sprintf"] = func(c *FnCtx, st *State, call *ast.CallExpr, recv *Val, args []Val) Val {
+		s := c.fresh("sprintf", "Str")
+		res := Val{K: KStr, S: s, T: types.Typ[types.String]}
+		if tv, ok := c.info.Types[call.Args[0]]; ok && tv.Value != nil && tv.Value.ExactString() == `"%9d"` && len(call.Args) == 2 {
+			v := c.evalExpr(st, call.Args[1])
+			c.useDig9()
+			c.assume(st, sx(">=", sx("slen", s), "9"))
+			c.assume(st, sImp(sAnd(sx("<=", "0", v.S), sx("<", v.S, "1000000000")),
+				sAnd(sx("=", sx("slen", s), "9"),
+					fmt.Sprintf("(forall ((k Int)) (! (=> (and (<= 0 k) (< k 9)) (= (sat %s k) (dig9 %s k))) :pattern ((sat %s k))))", s, v.S, s))))
+			return res
+		}
+		c.unmodelled["fmt.Sprintf result text"] = true
+		return res
+	}
+}
